@@ -639,7 +639,80 @@ func ruleOptionTables(c *core.Ctx) {
 			}
 			_ = info
 		}
+		// the same as a table: for _, e := range table { if v >= e.from { opt |= e.opt } } with a
+		// package-level table of {version, options} pairs
+		ast.Inspect(fn.Decl.Body, func(n ast.Node) bool {
+			rs, ok := n.(*ast.RangeStmt)
+			if !ok || rs.Value == nil {
+				return true
+			}
+			tv, ok := core.ObjOf(info, rs.X).(*types.Var)
+			if !ok || tv.Pkg() == nil || tv.Parent() != tv.Pkg().Scope() {
+				return true
+			}
+			elem := core.ObjOf(info, rs.Value)
+			// the fields used in the comparison and in the update
+			var fromField, optField string
+			ast.Inspect(rs.Body, func(m ast.Node) bool {
+				switch x := m.(type) {
+				case *ast.BinaryExpr:
+					if x.Op == token.GEQ {
+						if sel, isSel := ast.Unparen(x.Y).(*ast.SelectorExpr); isSel && core.ObjOf(info, sel.X) == elem {
+							fromField = sel.Sel.Name
+						}
+					}
+					if x.Op == token.LEQ {
+						if sel, isSel := ast.Unparen(x.X).(*ast.SelectorExpr); isSel && core.ObjOf(info, sel.X) == elem {
+							fromField = sel.Sel.Name
+						}
+					}
+				case *ast.AssignStmt:
+					if x.Tok == token.OR_ASSIGN && len(x.Rhs) == 1 {
+						if sel, isSel := ast.Unparen(x.Rhs[0]).(*ast.SelectorExpr); isSel && core.ObjOf(info, sel.X) == elem {
+							optField = sel.Sel.Name
+							o.At(fn.Site(x, "enables the options of a table entry"))
+						}
+					}
+				}
+				return true
+			})
+			if fromField == "" || optField == "" {
+				return true
+			}
+			_, init, ipkg := c.Prog.Var("pdf", tv.Name())
+			cl, isCL := ast.Unparen(init).(*ast.CompositeLit)
+			if init == nil || !isCL {
+				return true
+			}
+			for _, el := range cl.Elts {
+				if kv, isKV := el.(*ast.KeyValueExpr); isKV {
+					el = kv.Value
+				}
+				ecl, isE := ast.Unparen(el).(*ast.CompositeLit)
+				if !isE {
+					continue
+				}
+				fields := compositeFields(ipkg.TypesInfo, ecl)
+				from, opts := fields[fromField], fields[optField]
+				if from == nil || opts == nil {
+					continue
+				}
+				ast.Inspect(opts, func(k ast.Node) bool {
+					if id, isID := k.(*ast.Ident); isID {
+						if _, isConst := ipkg.TypesInfo.Uses[id].(*types.Const); isConst {
+							got[id.Name] = core.ExprStr(from)
+						}
+					}
+					return true
+				})
+			}
+			return true
+		})
 		for f, v := range want {
+			if got[f] == "" {
+				o.Unrec("from which version %s is enabled was not found (neither a version test around the assignment nor a table of versions and options)", f)
+				continue
+			}
 			if got[f] != v {
 				o.Fail("%s is enabled for versions >= %q, want >= %s", f, got[f], v)
 			}
